@@ -19,7 +19,7 @@ for d in sorted(glob.glob(os.path.join(V, "seeded", "C*-*"))):
 table = "\n".join(rows)
 p = os.path.join(V, "DESIGN.md")
 s = open(p).read()
-s = re.sub(r"<!-- SEEDED-TABLE-BEGIN -->.*<!-- SEEDED-TABLE-END -->", "<!-- SEEDED-TABLE-BEGIN -->\n" + table + "\n<!-- SEEDED-TABLE-END -->", s, flags=re.S)
+s = re.sub(r"<!-- SEEDED-TABLE-BEGIN -->.*<!-- SEEDED-TABLE-END -->", lambda m: "<!-- SEEDED-TABLE-BEGIN -->\n" + table + "\n<!-- SEEDED-TABLE-END -->", s, flags=re.S)
 open(p, "w").write(s)
 caught = sum(1 for n in res if res[n].get("caught"))
 print(f"{caught}/{len(res)} caught; table rows {len(rows) - 2}")
